@@ -301,6 +301,8 @@ def contexts(sa, orm, t, cls, names):
 
 
 def part_a(ctx, sa, orm, engine_factory):
+    import time
+
     rng = ctx.rng
     specs = build_specs(sa, rng)
     names = ["c_" + s[0] for s in specs]
@@ -316,7 +318,9 @@ def part_a(ctx, sa, orm, engine_factory):
     rounds = ctx.pick({"quick": 2, "thorough": 24})
     try:
         for rnd in range(rounds):
-            if rnd and not ctx.budget_ok():
+            # (budget only, never a verdict) part A may use ~55% of the soft budget so that the
+            # later rounds of part B are not starved on a loaded machine
+            if rnd and (not ctx.budget_ok() or time.monotonic() - ctx.t0 > 0.55 * ctx.soft_s):
                 break
             eng = engine_factory()
             md.create_all(eng)
